@@ -315,17 +315,54 @@ func c03One(c *Ctx, toks []c03tok, compact bool, local map[string]int64) {
 	local["roundtrip-ok"]++
 }
 
+// c03Optional: spellings the grammar does not promise (a sign directly after a
+// sign). Nothing is claimed when the parser rejects them; when it accepts one,
+// print + parse must keep whatever grouping it built.
+func c03Optional(c *Ctx, text string, local map[string]int64) {
+	r := c.R
+	var e, e2 influxql.Expr
+	var err, err2 error
+	var printed string
+	if p, pv, st := mon.Try(func() {
+		e, err = influxql.ParseExpr(text)
+		if err == nil {
+			printed = e.String()
+			e2, err2 = influxql.ParseExpr(printed)
+		}
+	}); p {
+		r.Violation("panic-in-ParseExpr", map[string]interface{}{"sub": "optional", "input": text, "why": fmt.Sprint(pv), "stack": st})
+		return
+	}
+	r.Eval(1)
+	if err != nil {
+		local["optional.rejected"]++
+		return
+	}
+	local["optional.accepted"]++
+	if err2 != nil || shapeOf(e2) != shapeOf(e) {
+		why := fmt.Sprintf("printed %q re-parses to %s, original %s", printed, shapeOf(e2), shapeOf(e))
+		if err2 != nil {
+			why = fmt.Sprintf("printed %q does not re-parse: %v", printed, err2)
+		}
+		r.Violation("roundtrip-regroups", map[string]interface{}{"sub": "optional", "input": text, "why": why})
+	}
+}
+
 func init() { Registry["C03"] = checkC03 }
 
 func checkC03(c *Ctx) (string, bool, []string) {
 	r := c.R
-	rule := "all chains of k operators over the 19 operator spellings for k<=3 (k<=4 in thorough), compact and spaced; all placements of one or two parenthesised sub-chains for k<=3 with one operator per level; signed operand (-x, +x, signed references with a ::type cast) and an operand inside one or two pairs of parentheses of its own at each position for k<=2; negated and explicitly positive parenthesised groups; groups whose whole content is a group; random chains k=5..12 with parentheses and negations. Each case: ParseExpr shape vs reference grouper, then String()+ParseExpr shape. Non-trivial = k>=2 (grouping is observable); distinct by rendered text."
+	rule := "all chains of k operators over the 19 operator spellings for k<=3 (k<=4 in thorough), compact and spaced; all placements of one or two parenthesised sub-chains for k<=3 with one operator per level; signed operand (-x, +x, signed references with a ::type cast) and an operand inside one or two pairs of parentheses of its own at each position for k<=2; negated and explicitly positive parenthesised groups; groups whose whole content is a group; random chains k=5..12 (an eighth of them k=13..48) with parentheses and negations; sign-after-sign spellings (`- -b`, `+ -b`, `-(-b)`, ...) behind every operator, judged only when the parser accepts them. Each case: ParseExpr shape vs reference grouper, then String()+ParseExpr shape. Non-trivial = k>=2 (grouping is observable); distinct by rendered text."
 	assume := []string{"the five precedence levels and left associativity as written in the property statement", "a negated operand -x or -( … ) denotes the node (-1 * x) treated as an atom"}
 
 	if c.Replay != nil {
 		// replay re-parses the recorded text against its recorded expectation
 		in := replayStr(c, "input")
 		local := map[string]int64{}
+		if replayStr(c, "sub") == "optional" {
+			c03Optional(c, in, local)
+			return rule, false, assume
+		}
 		toks, ok := lexC03(in)
 		if ok {
 			c03One(c, toks, false, local)
@@ -482,6 +519,10 @@ func checkC03(c *Ctx) (string, bool, []string) {
 		rg := mon.NewRng(c.Seed, "c03.rand", i)
 		local := map[string]int64{}
 		k := rg.Range(5, 12)
+		if i%8 == 0 {
+			k = rg.Range(13, 48) // long chains: deep left edges
+			local["long-chains"]++
+		}
 		ops := make([]int, k)
 		for j := range ops {
 			ops[j] = rg.Intn(nops)
@@ -552,6 +593,21 @@ func checkC03(c *Ctx) (string, bool, []string) {
 		}
 		r.MergeCounts(local)
 	})
+	// spellings outside the promised grammar, judged only if accepted
+	for _, o := range c03ops {
+		if o.regex {
+			continue
+		}
+		sp := " " + o.spell + " "
+		for _, opd := range []string{"- -b", "+ -b", "- +b", "+ +b", "-(-b)", "- -(b + c)", "- -f(b)", "- - -b", "-(- -b)", "+(-(b))"} {
+			local := map[string]int64{}
+			c03Optional(c, "a"+sp+opd, local)
+			c03Optional(c, opd+sp+"a", local)
+			c03Optional(c, "a"+sp+opd+sp+"c", local)
+			c03Optional(c, "a * c"+sp+opd, local)
+			r.MergeCounts(local)
+		}
+	}
 	for _, o := range c03ops {
 		r.Require(r.Counter("op."+o.spell) > 0, "operator "+o.spell+" never used")
 	}
